@@ -46,7 +46,7 @@ pub open spec fn page_ok(p: Map<Seq<u8>, PairInfoRaw>, lo: Option<Seq<u8>>, n: n
 
 //%fn contracts/halo-factory/src/state.rs | - | read_pairs
 //%%rewrite #1 /calc_range_start\(start_after\)\.map\(Bound::ExclusiveRaw\)/ => vmap_owned(calc_range_start(start_after), |v: Vec<u8>| -> (b: Bound) ensures b == Bound::ExclusiveRaw(v) { Bound::ExclusiveRaw(v) }) ## R4: Option::map(constructor) -> verified helper with the constructor applied in a closure
-//%%rewrite #1 /PAIRS\s*\.range\(storage, start, None, Order::Ascending\)\s*\.take\(limit\)\s*\.map\(\|item\| ((?s:.*?))\)\s*\.collect::<StdResult<Vec<PairInfo>>>\(\)/ => { let items = PAIRS.range_from(storage, start); let ghost items0 = items@; let page = vtake(items, limit); let ghost page0 = page@; let out = vtry_map_all(page, |item: StdResult<(Vec<u8>, PairInfoRaw)>| -> (o: StdResult<PairInfo>) ensures /*[C19 page.maps-each-record]*/ o is Ok ==> item is Ok && normal_of(item->Ok_0.1, o->Ok_0) \1); proof { if out is Ok { let all = sorted_keys(storage.pairs@); let lo = cursor_bound(start_after); let s = choose|s: int| #![trigger split_at(all, lo, s)] split_at(all, lo, s) && items0.len() == all.len() - s && (forall|i: int| 0 <= i < items0.len() ==> (#[trigger] items0[i]) is Ok && items0[i]->Ok_0.0@ == all[s + i] && items0[i]->Ok_0.1 == storage.pairs@[all[s + i]]); assert(split_at(all, lo, s)); assert forall|i: int| 0 <= i < out->Ok_0@.len() implies normal_of(storage.pairs@[all[s + i]], #[trigger] out->Ok_0@[i]) by { assert(page0[i] == items0[i]); } } } out } ## R4: Map::range(start, None, Ascending).take(n).map(f).collect::<StdResult<_>>() -> assumed ordered listing `range_from` + verified helpers vtake / vtry_map_all; the closure keeps its real body
+//%%rewrite #1 /PAIRS\s*\.range\(storage, (\w+), None, Order::Ascending\)\s*\.take\((\w+)\)\s*\.map\(\|item\| ((?s:.*?))\)\s*\.collect::<StdResult<Vec<PairInfo>>>\(\)/ => { let items = PAIRS.range_from(storage, \1); let ghost items0 = items@; let page = vtake(items, \2); let ghost page0 = page@; let out = vtry_map_all(page, |item: StdResult<(Vec<u8>, PairInfoRaw)>| -> (o: StdResult<PairInfo>) ensures /*[C19 page.maps-each-record]*/ o is Ok ==> item is Ok && normal_of(item->Ok_0.1, o->Ok_0) \3); proof { if out is Ok { let all = sorted_keys(storage.pairs@); let lo = cursor_bound(start_after); let s = choose|s: int| #![trigger split_at(all, lo, s)] split_at(all, lo, s) && items0.len() == all.len() - s && (forall|i: int| 0 <= i < items0.len() ==> (#[trigger] items0[i]) is Ok && items0[i]->Ok_0.0@ == all[s + i] && items0[i]->Ok_0.1 == storage.pairs@[all[s + i]]); assert(split_at(all, lo, s)); assert forall|i: int| 0 <= i < out->Ok_0@.len() implies normal_of(storage.pairs@[all[s + i]], #[trigger] out->Ok_0@[i]) by { assert(page0[i] == items0[i]); } } } out } ## R4: Map::range(start, None, Ascending).take(n).map(f).collect::<StdResult<_>>() -> assumed ordered listing `range_from` + verified helpers vtake / vtry_map_all; the closure keeps its real body
 //%%sig
     ensures
         /*[C19 page.size-cap]*/ r is Ok ==> r->Ok_0@.len() <= 30 && (limit is None ==> r->Ok_0@.len() <= 10) && r->Ok_0@.len() <= page_limit(limit),
